@@ -63,6 +63,14 @@ func c06Run(c c06Case, choices []int, trace bool) (c06Outcome, []string) {
 			return o2, tr2
 		}
 	}
+	if o.Deadlock || !o.Drained {
+		// on a busy machine six seconds prove nothing: once more with two minutes
+		sched.Patience(2*time.Minute, func() {
+			if o2, tr2 := c06RunOnce(c, choices, trace); !o2.Deadlock && o2.Drained {
+				o, tr = o2, tr2
+			}
+		})
+	}
 	return o, tr
 }
 
@@ -407,6 +415,8 @@ func TestC06(t *testing.T) {
 			"echo $(a ; ; -b c d e f) g", "x `a | | b c d` e f", "echo $(a ; ; b c d 'x", "echo \"$(a && && b c)\" d e", "echo $(a $(b ; ; c d) e) f g", "a $((1 + $(b ; ; c d e) )) f",
 			// the parser has given up before the substitution, whose own parse fails as well
 			"a | | $(b | | -c -d) e", "a ; ; `b && && c d` e f", "a | | \"$(b ; ; c d)\" e f", ") $(a | | b c) d", "a | | $(b $(c ; ; d e) f) g", "a | | x$((1 + $(b ; ; c d) ))y z", "{ a; } } $(b | | c d e) f", "a | | $(cat <<E ; ; b c\nE\n) d",
+			// a substitution is closed on the line of a here-document operator
+			"echo $(cat <<E)", "echo `cat <<E`", "echo $(a; cat <<E) x", "x=$(cat <<-E)\n", "echo \"$(cat <<E)\" y", "echo $(cat <<A; cat <<B)",
 			// the lexer fails in the token behind a command name that it still has to hand over
 			"echo 'abc", "! echo 'abc", "a \"b", "a ${x", "a `b", "x=1 a 'b", "a b 'c", "a >f 'b", "if a 'b", "a | b 'c", "a; b \"c", "f() 'a",
 			// the parser fails, and the lexer fails in the next token
